@@ -18,7 +18,7 @@ ASSUMPTIONS = [
     'texts that only the lenient Python parser accepts (NaN, Infinity, floats overflowing to inf) are judged for totality only',
     'nesting deeper than 64 levels is outside the quantifier and not generated',
 ]
-SHARDS = {'quick': 4, 'thorough': 16}
+SHARDS = {'quick': 8, 'thorough': 16}
 TIMEOUT = {'quick': 300, 'thorough': 1800}
 ANCHORS = [
     ('pjrpc/server/dispatcher.py', 'Dispatcher.dispatch'),
@@ -33,7 +33,7 @@ ANCHORS = [
 FLOORS = {'*': {
     'cfg:sync:None': 100, 'cfg:sync:0': 20, 'cfg:sync:1': 20, 'cfg:sync:3': 20,
     'cfg:async:None': 100, 'cfg:async:0': 20, 'cfg:async:1': 20, 'cfg:async:3': 20,
-    'branch:none-return': 10, 'branch:-32700': 50, 'branch:-32600': 50, 'branch:batch-response': 50,
+    'flavour:async-plain': 500, 'flavour:sync-inert': 500, 'flavour:async-inert': 500, 'branch:none-return': 10, 'branch:-32700': 50, 'branch:-32600': 50, 'branch:batch-response': 50,
     'branch:single-response': 50, 'ambient:dispatch-wrapper': 20, 'ambient:extract_error_codes-ensure': 20, 'input:not-json': 50, 'input:batch': 50, 'input:bigint': 4, 'input:depth>=32': 4,
 }}
 
@@ -60,6 +60,9 @@ def gen(ctx):
             is_batch = text.lstrip().startswith('[')
         for is_async, mb in configs_for(is_batch):
             yield 'text', {'family': family, 'text': text, 'is_async': is_async, 'max_batch': mb}
+        if k % 4 == 0:
+            fl = serverside.EXTRA_FLAVOURS[(k // 4) % 3]
+            yield 'text', {'family': family, 'text': text, 'is_async': fl.startswith('async'), 'max_batch': None, 'flavour': fl}
 
     yield 'ambient_suite', {}
     for fam, text in docs.object_product(rng, exhaustive=full, samples=2500):
@@ -76,12 +79,12 @@ def gen(ctx):
         yield from emit(fam, text)
 
 
-def run_text(ctx, family, text, is_async, max_batch):
+def run_text(ctx, family, text, is_async, max_batch, flavour=None):
     info = serverside.TextInfo(text)
-    w = serverside.get_world(is_async, max_batch)
+    w = serverside.world_for(flavour, max_batch) if flavour else serverside.get_world(is_async, max_batch)
     o = serverside.observe(w, text)
-    kind = 'async' if is_async else 'sync'
-    ctx.hit(f'cfg:{kind}:{max_batch}')
+    kind = flavour or ('async' if is_async else 'sync')
+    ctx.hit(f'cfg:{kind}:{max_batch}' if not flavour else f'flavour:{flavour}')
     ctx.hit('input:not-json' if not info.is_json else ('input:batch' if isinstance(info.doc, list) else 'input:object-or-scalar'))
     if info.bigint:
         ctx.hit('input:bigint')
